@@ -72,6 +72,7 @@ func newC09Backend() (*c09Backend, error) {
 
 type c09Case struct {
 	Tok      string          `json:"tok"`
+	URLForm  string          `json:"shim_url_form,omitempty"`
 	Shim     bool            `json:"via_shim_open"`
 	Identity string          `json:"asserted_identity"`
 	Fields   []rawhttp.Field `json:"client_fields"`
@@ -157,7 +158,10 @@ func C09(r *core.Run) {
 					c.Fields = append(c.Fields, rawhttp.Field{Name: name, Value: val})
 				}
 				rng.Shuffle(len(c.Fields), func(a, b int) { c.Fields[a], c.Fields[b] = c.Fields[b], c.Fields[a] })
-				c.Class = fmt.Sprintf("%s|shim=%v|forged=%s|auth=%d|id=%s", cfgName, c.Shim, fshape, auth, idKind)
+				if c.Shim {
+					c.URLForm = []string{"absolute", "absolute", "userinfo", "path-only", "userinfo-no-password"}[rng.Intn(5)]
+				}
+				c.Class = fmt.Sprintf("%s|shim=%v%s|forged=%s|auth=%d|id=%s", cfgName, c.Shim, c.URLForm, fshape, auth, idKind)
 				cases = append(cases, c)
 			}
 			// issue the requests, 8 in flight
@@ -172,6 +176,14 @@ func C09(r *core.Run) {
 					var w rawhttp.Builder
 					if c.Shim {
 						body := "ws://ignored.example/ws/" + c.Tok + "?x=1"
+						switch c.URLForm {
+						case "userinfo":
+							body = "ws://mallory:s3cret-" + c.Tok + "@ignored.example/ws/" + c.Tok + "?x=1"
+						case "path-only":
+							body = "/ws/" + c.Tok + "?x=1"
+						case "userinfo-no-password":
+							body = "ws://bearer-" + c.Tok + "@ignored.example/ws/" + c.Tok
+						}
 						w.Line("POST /shim/open HTTP/1.1").Field("Host", "c09.example").Field("X-Tok", c.Tok).Fields(c.Fields).
 							Field("Content-Length", fmt.Sprint(len(body))).End()
 						w.WriteString(body)
@@ -204,11 +216,16 @@ func C09(r *core.Run) {
 				reqs := backend.seen[c.Tok]
 				sawWS := backend.ws[c.Tok]
 				backend.mu.Unlock()
+				userinfo := strings.HasPrefix(c.URLForm, "userinfo")
 				if len(reqs) == 0 {
-					r.Inconclusive(fmt.Sprintf("request %s (%s) never reached the backend", c.Tok, c.Class))
+					if !userinfo { // a URL with credentials may be refused before anything is dialled
+						r.Inconclusive(fmt.Sprintf("request %s (%s) never reached the backend", c.Tok, c.Class))
+					} else {
+						r.Add("shim_opens_with_userinfo_refused", 1)
+					}
 					continue
 				}
-				if c.Shim && !sawWS {
+				if c.Shim && !sawWS && !userinfo {
 					r.Inconclusive(fmt.Sprintf("shim open %s did not produce a websocket handshake", c.Tok))
 				}
 				kind := "plain"
